@@ -127,3 +127,30 @@ func zzC14_cache_selftest() {
 	c.CheckExpirations(time.Unix(0, now))
 	symAssert(c.Load(7) != nil, "selftest: must fail (the element is expired and swept)")
 }
+
+// a reader and a writer meet on a key whose element has expired: Load reports the expired element as absent; it never
+// removes the fresh element a concurrent LoadOrStore puts there, and never fires that element's expiry callback
+func zzC14_cache_load_race() {
+	c := NewCache[string, int]()
+	now := time.Unix(0, 1<<41)
+	symSetNow(now)
+	expiredFired, freshFired := 0, 0
+	c.LoadOrStore("k", NewElement(1, now.Add(-time.Second), func(int) { expiredFired++ }))
+	fresh := NewElement(2, now.Add(time.Hour), func(int) { freshFired++ })
+	var seen *Element[int]
+	done := 0
+	go func() {
+		seen = c.Load("k")
+		done++
+	}()
+	go func() {
+		_, _ = c.LoadOrStore("k", fresh)
+		done++
+	}()
+	symWaitUntil(func() bool { return done == 2 })
+	symCover("joined")
+	symAssert(seen == nil || seen == fresh, "Load never returns an expired element")
+	got := c.Load("k")
+	symAssert(got == fresh, "the fresh element stored next to a concurrent Load of the expired one stays in the cache")
+	symAssert(freshFired == 0, "and its expiry callback is not fired")
+}
